@@ -453,13 +453,20 @@ def check_file(case, ctx):
     d = int(case["depth"])
     use_matcher = bool(case["split"] % 2)
     fname = ctx.tmpfile("pairs.txt")
+    again = case["split"] % 3 == 0       # the pair file is written twice to the same path: it holds the last result
+    if again:
+        ctx.count("file-written-twice")
     if use_matcher:
         mobj = must(esutil.htm.Matcher, d, su.ra2_c, su.dec2_c)
         mem = must(mobj.match, su.ra1_c, su.dec1_c, su.rad_c, maxmatch=su.maxmatch)
+        if again:
+            must(mobj.match, su.ra1_c, su.dec1_c, su.rad_c, maxmatch=1, file=fname)
         cnt = must(mobj.match, su.ra1_c, su.dec1_c, su.rad_c, maxmatch=su.maxmatch, file=fname)
     else:
         h = esutil.htm.HTM(d)
         mem = must(h.match, su.ra1_c, su.dec1_c, su.ra2_c, su.dec2_c, su.rad_c, maxmatch=su.maxmatch)
+        if again:
+            must(h.match, su.ra1_c, su.dec1_c, su.ra2_c, su.dec2_c, su.rad_c, maxmatch=1, file=fname)
         cnt = must(h.match, su.ra1_c, su.dec1_c, su.ra2_c, su.dec2_c, su.rad_c, maxmatch=su.maxmatch,
                    file=fname)
     verify(su, mem, "match (memory)", _d12_tol(ctx))
@@ -488,6 +495,100 @@ def check_file(case, ctx):
     if not use_matcher:
         data2 = must(esutil.htm.HTM(d).read, fname)
         require(np.array_equal(data2, data), "HTM.read and read_pairs disagree")
+
+
+# ---------------------------------------------------------------------------------------------
+# long first lists (more than 2^16 .. 4e5 query points)
+# ---------------------------------------------------------------------------------------------
+LONG_N1 = [65537, 131073, 200001, 250001, 262145, 400003]
+
+
+@st.composite
+def long_cases(draw):
+    k = draw(st.integers(1, 5))
+    base = [draw(htmsets.any_point()) for _ in range(k)]
+    r = draw(htmsets.pow10(-3.0, -2.0))
+    # second list: around every base point a few points clearly inside (distinct fractions of r) and outside
+    near = []
+    for b in base:
+        fr = draw(st.lists(st.sampled_from([0.1, 0.25, 0.4, 0.55, 0.7, 0.85]), min_size=0, max_size=3, unique=True))
+        out = draw(st.lists(st.sampled_from([1.2, 1.5, 3.0]), min_size=0, max_size=2, unique=True))
+        near.append({"in": fr, "out": out, "bearing": draw(st.floats(0.0, 360.0))})
+    return {"depth": draw(st.sampled_from([5, 6, 7, 8, 9])), "base": base, "radius": r, "near": near,
+            "n1": draw(st.sampled_from(LONG_N1)) + draw(st.integers(0, 40)),
+            "api": draw(st.sampled_from(["HTM.match", "HTM.match", "Matcher"])),
+            "maxmatch": draw(st.sampled_from([0, 0, 1, 2]))}
+
+
+def check_long(case, ctx):
+    import esutil
+    base = np.array(case["base"], dtype="f8").reshape(-1, 2)
+    k = base.shape[0]
+    r = float(case["radius"])
+    lon2, lat2 = [], []
+    for b, nb in zip(case["base"], case["near"]):
+        for i, f in enumerate(list(nb["in"]) + list(nb["out"])):
+            q = htmsets.neighbour(b, (nb["bearing"] + 97.0 * i) % 360.0, f * r)
+            lon2.append(q[0])
+            lat2.append(q[1])
+    if not lon2:
+        lon2, lat2 = [base[0, 0]], [base[0, 1]]
+    ra2, dec2 = np.array(lon2), np.array(lat2)
+    n1 = int(case["n1"])
+    ra1, dec1 = np.resize(base[:, 0], n1), np.resize(base[:, 1], n1)
+    # truth for the k distinct query points
+    sep = np.asarray(sphere.sep(base[:, 0][:, None], base[:, 1][:, None], ra2[None, :], dec2[None, :]))
+    inside, amb = sep < r - TOL, np.abs(sep - r) <= TOL
+    if amb.any():
+        ctx.count("undecidable-at-radius")
+        return
+    mm = int(case["maxmatch"])
+    per = []
+    for b in range(k):
+        js = np.nonzero(inside[b])[0]
+        js = js[np.argsort(sep[b][js].astype("f8"), kind="stable")]
+        d = sep[b][js].astype("f8")
+        if d.size > 1 and np.min(np.diff(d)) < 10 * TOL:
+            ctx.count("undecidable-order")
+            return
+        per.append(js[:mm] if mm > 0 else js)
+    d = int(case["depth"])
+    if case["api"] == "Matcher":
+        res = must(must(esutil.htm.Matcher, d, ra2, dec2).match, ra1, dec1, r, maxmatch=mm)
+    else:
+        res = must(esutil.htm.HTM(d).match, ra1, dec1, ra2, dec2, r, maxmatch=mm)
+    what = "%s with %d query points" % (case["api"], n1)
+    require(isinstance(res, tuple) and len(res) == 3, "%s: expected (m1,m2,d12), got %r", what, type(res))
+    m1, m2, d12 = [np.asarray(a) for a in res]
+    cnt = np.array([len(p) for p in per], dtype="i8")
+    reps = np.resize(cnt, n1)
+    exp1 = np.repeat(np.arange(n1, dtype="i8"), reps)
+    require(m1.size == exp1.size, "%s: %d pairs returned, brute force finds %d", what, m1.size, exp1.size)
+    if exp1.size == 0:
+        return
+    block = np.concatenate([np.asarray(p, dtype="i8") for p in per]) if cnt.sum() else np.zeros(0, "i8")
+    full, rest = divmod(n1, k)
+    exp2 = np.concatenate([np.tile(block, full)] + [np.asarray(p, dtype="i8") for p in per[:rest]])
+    bad = np.nonzero((m1 != exp1) | (m2 != exp2))[0]
+    if bad.size:
+        q = int(bad[0])
+        require(False, "%s: pair #%d is (%d,%d), brute force (grouped by query point in input order, sorted by "
+                "separation) has (%d,%d)", what, q, m1[q], m2[q], exp1[q], exp2[q])
+    true = sep[exp1 % k, exp2].astype("f8")
+    err = np.abs(d12 - true)
+    q = int(np.argmax(err))
+    require(float(err[q]) <= _d12_tol(ctx), "%s: pair (%d,%d) reported at %.17g deg, true separation %.17g deg", what,
+            m1[q], m2[q], d12[q], true[q])
+
+
+def classify_long(case):
+    n1 = case["n1"]
+    labs = ["api:" + case["api"], "maxmatch:%d" % case["maxmatch"], "depth:%d" % case["depth"],
+            "n1:%s" % (">2^16" if n1 < 131072 else ">2^17" if n1 < 200000 else ">=200000" if n1 < 262144 else ">2^18"),
+            "nt:long-first-list"]
+    if any(nb["in"] for nb in case["near"]):
+        labs.append("has-matches")
+    return labs
 
 
 def classify(case):
@@ -535,4 +636,5 @@ SUBCHECKS = [
     Subcheck("depths", match_cases, check_depths, classify, quick=1200, thorough=60000),
     Subcheck("matcher", match_cases, check_matcher, classify, quick=1200, thorough=60000),
     Subcheck("file", match_cases, check_file, classify, quick=1200, thorough=60000),
+    Subcheck("long", long_cases, check_long, classify_long, quick=16, thorough=320),
 ]
